@@ -4,9 +4,14 @@ import collections
 import json
 
 
+class Edges(list):
+    """the transitions of one edge dump; .features: the Features constant of the model configuration"""
+    features = frozenset()
+
+
 def parse_edges(out):
     vers = None
-    edges = []
+    edges = Edges()
     for line in out.splitlines():
         if not line.startswith('"'):
             continue
@@ -16,9 +21,62 @@ def parse_edges(out):
             continue
         if s.startswith("VERS "):
             vers = json.loads(s[5:])
+        elif s.startswith("FEATS "):
+            edges.features = frozenset(json.loads(s[6:]))
         elif s.startswith("EDGE "):
             edges.append(json.loads(s[5:]))
     return vers, edges
+
+
+def canon_view(v, model, with_store=True):
+    """Canonical string of a ConfView (Prunner.tla) - from the model (TLC's ToJson of ConfView(obs')) or from a recorded
+    vocabulary `st` of the real runner (view_of_st below); the two must be equal after every step of a gated script."""
+    def le(x):
+        return "other" if (model and x == "exit") else x
+    jobs = []
+    for j in v["jobs"]:
+        if not j["listed"]:
+            jobs.append(None)
+        else:
+            jobs.append([j["p"], j["ver"], j["started"], j["completed"], j["canceled"], j["errored"], le(j["lastErr"]),
+                         [[t["status"], t["errored"], t["canceled"]] for t in j["tasks"]]])
+    # a model configuration without the persist loop does not follow the content of the store
+    def same(x):
+        return x if model else ("y" if x else "n")
+    store = [([s["completed"], s["canceled"], s["started"], same(s["same"])] if s["present"] else None) for s in v["store"]] if with_store else []
+    return json.dumps([v["phase"], v["shut"], [[c["def"], c["ver"]] for c in v["cfg"]], [[x["listed"], x["schedulable"], x["running"]] for x in v["pipes"]],
+                       jobs, [list(o) for o in v["open"]], store, list(v["logs"])], separators=(",", ":"))
+
+
+def view_matches(model_view, observed_view):
+    """equality of two canonical views; "*" in the model's view (a field the model does not predict) matches anything"""
+    if model_view == observed_view:
+        return True
+    if '"*"' not in model_view:
+        return False
+
+    def eq(a, b):
+        if a == "*":
+            return True
+        if isinstance(a, list) and isinstance(b, list):
+            return len(a) == len(b) and all(eq(x, y) for x, y in zip(a, b))
+        return a == b
+    return eq(json.loads(model_view), json.loads(observed_view))
+
+
+def result_of(v):
+    """The reply of the operation (kept in `last` while the goroutine steps after it run): a property of the transition."""
+    return "%s/%s/%s" % (v["res"], v["err"], v["new"])
+
+
+def view_of_st(st):
+    """The ConfView of a recorded vocabulary (one trace line of the driver)."""
+    return {"phase": st["phase"], "shut": st["shut"],
+            "cfg": [{"def": c["def"], "ver": c["ver"] if c["def"] else 0} for c in st["cfg"]],
+            "pipes": st["pipes"], "jobs": st["jobs"],
+            "open": [[r["open"] for r in rs] for rs in st["runs"]],
+            "store": st["store"]["jobs"], "logs": st["logs"],
+            "res": st["last"]["res"], "err": st["last"]["err"], "new": st["last"]["new"]}
 
 
 def projection(core):
@@ -56,16 +114,20 @@ def plan(vers, edges, max_len=45, max_scripts=None, expectations=False):
     quiet = {}
     proj = {}
     K = []
+    RES = []
+    # a model configuration without the persist loop does not follow the content of the store
+    with_store = "persist" in getattr(edges, "features", ())
     for e in edges:
         u, v = nid(json.dumps(e["from"], sort_keys=True)), nid(json.dumps(e["to"], sort_keys=True))
         if expectations and v not in proj:
-            proj[v] = projection(e["to"])
+            proj[v] = canon_view(e["toView"], True, with_store) if "toView" in e else projection(e["to"])
             quiet[v] = bool(e.get("toQuiet"))
         key = (u, v, json.dumps(e["step"], sort_keys=True) if e["client"] else "internal")
         if key in seen:
             continue
         seen.add(key)
         E.append((u, v, e["step"] if e["client"] else None))
+        RES.append(result_of(e["toView"]) if (expectations and e["client"] and "toView" in e) else None)
         out[u].append(len(E) - 1)
         if e["init"]:
             init_cfg[u] = e["cfg"]
@@ -128,7 +190,7 @@ def plan(vers, edges, max_len=45, max_scripts=None, expectations=False):
     if expectations:
         # the quotient graph in the form lib/conform.py walks: per node its projection, whether it is quiescent, its
         # goroutine (internal) successors and its successors per client operation
-        g = {"proj": proj, "quiet": {n for n in quiet if quiet[n]}, "internal": collections.defaultdict(list), "client": collections.defaultdict(dict)}
+        g = {"with_store": with_store, "proj": proj, "quiet": {n for n in quiet if quiet[n]}, "internal": collections.defaultdict(list), "client": collections.defaultdict(dict)}
         for r in init_cfg:
             g["quiet"].add(r)
             g["proj"].setdefault(r, "")
@@ -136,7 +198,7 @@ def plan(vers, edges, max_len=45, max_scripts=None, expectations=False):
             if s is None:
                 g["internal"][u].append(v)
             else:
-                g["client"][u].setdefault(K[i], []).append(v)
+                g["client"][u].setdefault(K[i], []).append((v, RES[i]))
         g["internal"], g["client"] = dict(g["internal"]), dict(g["client"])
         stats["graph"] = g
     return scripts, stats
